@@ -1,3 +1,4 @@
+import Proofs.MemExample
 import Proofs.MemSound
 import Proofs.Memory
 /-! Property theorems of C04 live in the imported files; the list audited on every run is in harness/props/c04.py. -/
